@@ -5,6 +5,8 @@ import (
 	"fmt"
 	"math/big"
 	"math/rand"
+	"runtime/debug"
+	"strings"
 	"testing/iotest"
 
 	"github.com/crate-crypto/go-ipa/bandersnatch"
@@ -79,6 +81,12 @@ func c06compressed(c *mon.Ctx, b []byte, cls string, rng *rand.Rand) {
 		{"ReadPoint/bytes.Buffer", func() (*banderwagon.Element, error) {
 			return common.ReadPoint(bytes.NewBuffer(b)) // reads straight out of the caller's slice
 		}},
+		{"SetBytes/read-only-input", func() (*banderwagon.Element, error) {
+			// the encoding is on a read-only page: a decoder that writes to its input, even transiently, faults (a panic here)
+			var e banderwagon.Element
+			err := e.SetBytes(roBytesBudget(b))
+			return &e, err
+		}},
 		{"ReadPoint/1byte", func() (*banderwagon.Element, error) {
 			return common.ReadPoint(iotest.OneByteReader(bytes.NewReader(b)))
 		}},
@@ -99,7 +107,7 @@ func c06compressed(c *mon.Ctx, b []byte, cls string, rng *rand.Rand) {
 		}
 		wantErr := werr != nil
 		var wantPt ref.Affine = want
-		if d.name != "SetBytes" && len(b) > 32 {
+		if !strings.HasPrefix(d.name, "SetBytes") && len(b) > 32 {
 			// ReadPoint consumes exactly the first 32 bytes
 			w2, e2 := ref.Deserialize(b[:32])
 			wantErr, wantPt = e2 != nil, w2
@@ -235,6 +243,7 @@ func c06offCurveX(rng *rand.Rand) *big.Int {
 }
 
 func runC06(c *mon.Ctx) {
+	defer debug.SetPanicOnFault(debug.SetPanicOnFault(true)) // writes to read-only inputs become panics
 	runC06body(c)
 	c.Case("retained-results", func() { c06kept.Flush(c) })
 }
